@@ -607,6 +607,12 @@ func (z *BigInt) GobDecode(buf []byte) error {
 		z.updateInner(zi)
 		return err
 	}
+	// NOTE: (big.Int).GobDecode adopts the sign bit of the encoding without
+	// looking at the magnitude, so a zero can come back as -0; clear the sign
+	// so that a heap-allocated z is not left as a negative zero.
+	if zi.Sign() == 0 {
+		zi.SetUint64(0)
+	}
 	z.updateInner(zi)
 	return nil
 }
